@@ -67,6 +67,9 @@ NAMES = [b"node1", b"n", b"dtn", b"none", b"a-5", "knoten-äö".encode(), "€".
 SERVICES = [b"", b"in", b"incoming", b"~news", b"a/b/c", b"tele/sensors/temperature", b"123456", b"a-5", "dienst-ü".encode(),
             b"z" * 240, b"-", b"1-2-3", b"%20", "übung".encode(), "€".encode(), "~ü".encode(), "\U0001f680x".encode()]
 
+ODD_SSPS = [b"none", b"none", b"x", b"//", b"/", b"node1", b"//node1", b"///", "ü".encode(), b"none/", b"//none", b"//none/", b"None", b" none",
+            b"//" + b"n" * 300 + b"/" + b"s" * 10, b"0", b"dtn:none", b"//a//b", b"a" * 23, b"a" * 24, b"a" * 255, b"a" * 256]
+
 FLAG_BITS = [0x000001, 0x000002, 0x000004, 0x000020, 0x000040, 0x004000, 0x010000, 0x020000, 0x040000]
 IS_FRAGMENT = 0x1
 
@@ -75,6 +78,9 @@ def rnd_eid(rng, allow_none=True):
     r = rng.random()
     if r < 0.15 and allow_none:
         return ("NONE", 1, 0)
+    if r < 0.19:
+        # scheme-specific parts only a decoder can produce (the constructors always give "//node/service"): kept verbatim by the codec
+        return ("DTN", 1, rng.choice(ODD_SSPS))
     if r < 0.6:
         node = rng.choice(NAMES)
         svc = rng.choice(SERVICES)
@@ -239,6 +245,51 @@ def zero_crc_bundles():
     return out
 
 
+def big_bundle(n, plen, kind):
+    """the bundle the harness command `RTBIG n plen kind` builds (same fixed rule)"""
+    def crc_of(i):
+        k = i % 3 if kind == 3 else kind
+        return ("N",) if k == 0 else ("E16",) if k == 1 else ("E32",)
+    p = dict(ver=7, flags=0, crc=crc_of(1), dst=("DTN", 1, b"//node2/in"), src=("DTN", 1, b"//node1/out"), rpt=("NONE", 1, 0),
+             t=1000, seq=1, life=3600000, foff=0, flen=0)
+    cs = [dict(type=192, num=i + 2, flags=i % 3, crc=crc_of(i), data=("UNK", str(i).encode())) for i in range(n - 1, -1, -1)]
+    cs.append(dict(type=1, num=1, flags=0, crc=crc_of(2), data=("DATA", bytes((7 * j + 3) % 251 for j in range(plen)))))
+    return dict(p=p, cs=cs)
+
+
+def fnv1a64(data):
+    h = 0xcbf29ce484222325
+    for x in data:
+        h = ((h ^ x) * 0x100000001b3) & 0xFFFFFFFFFFFFFFFF
+    return h
+
+
+def judge_rtbig(line, out):
+    """oracle for an RTBIG line: round trip, idempotence, library CRC check, and the bytes (length + FNV-1a) against the reference encoder"""
+    t = line.split(" ")
+    n, plen, kind = int(t[1]), int(t[2]), int(t[3])
+    ref = ref_bundle(big_bundle(n, plen, kind))[0]
+    want = "OK RT T IDEM T V T LEN %d H %d" % (len(ref), fnv1a64(ref))
+    if out == want:
+        return None
+    o = out.split(" ")
+    if len(o) == 11 and o[0] == "OK":
+        if o[2] != "T":
+            return "a bundle of %d extension blocks and a %d-byte payload does not survive encode + decode" % (n, plen)
+        if o[4] != "T":
+            return "encoding the same large bundle twice gives different bytes"
+        if o[8:] != want.split(" ")[8:]:
+            return "encoding of a large bundle (%d extension blocks, %d-byte payload, CRC kind %d) differs from the RFC 9171 reference (length/hash %s, want %s)" % (
+                n, plen, kind, " ".join(o[8:]), " ".join(want.split(" ")[8:]))
+        if o[6] != "T":
+            return "the library's CRC check fails on the decoded wire image of a freshly encoded large bundle"
+    return "large bundle: %s" % out[:60]
+
+
+BIG_CASES = ["RTBIG 0 70000 1", "RTBIG 0 70000 2", "RTBIG 0 65525 1", "RTBIG 0 65526 1", "RTBIG 0 65524 2", "RTBIG 0 131100 2", "RTBIG 0 200000 3",
+             "RTBIG 254 10 3", "RTBIG 255 10 0", "RTBIG 65533 5 0", "RTBIG 65534 5 0", "RTBIG 65535 5 3", "RTBIG 65600 5 0"]
+
+
 # ------------------------------------------------------------------ case-line rendering ---------------
 
 def show_crc(c):
@@ -401,7 +452,7 @@ def ref_canonical(c):
 
 def ref_bundle(b):
     """RFC 9171 encoding (bytes) and the bundle with the CRC values a conformant peer would put on the wire"""
-    out = b"\x9f"
+    out = bytearray(b"\x9f")
     pb, pv = ref_primary(b["p"])
     out += pb
     nb = dict(p=dict(b["p"]), cs=[])
@@ -414,7 +465,8 @@ def ref_bundle(b):
         if cv is not None:
             nc["crc"] = ("V16" if len(cv) == 2 else "V32", cv)
         nb["cs"].append(nc)
-    return out + b"\xff", nb
+    out += b"\xff"
+    return bytes(out), nb
 
 
 def block_spans(b):
